@@ -17,7 +17,7 @@ class HealthFamily(Family):
     driver_args = ["health"]
     uses_gen = ("NONE",)
     trusted = ["net/http/httptest, encoding/json", "GenericSyncMap as an association list; one critical section per Store / Len / Iterate"]
-    assumptions = ["WaitForReady is exercised with DefaultReadyCheckInterval = 2 ms and a 60 ms observation window"]
+    assumptions = ["WaitForReady is exercised with DefaultReadyCheckInterval = 2 ms and a 60 ms observation window; 'waitlate' = the caller reads the channel 40 ms (20 check intervals) after the cancellation"]
     rule = "concurrent programs (requests racing with updates) explored at lock granularity; exhaustive logs up to length 4 over {add, ready} x 3 names with a status request after every operation, plus random logs over 6 names (incl. 'overall' and the empty name) with requests, IsReady and WaitForReady; non-trivial = >=2 answers"
 
     conc = ConcFamily("C18", "health")
@@ -35,7 +35,7 @@ class HealthFamily(Family):
     def driver_line(self, c, impl_obs):
         if "threads" in c:
             return self.conc.driver_line(c, impl_obs)
-        s = self.harness_line(c)
+        s = self.harness_line(c).replace("waitlate", "wait")     # the model's answer does not depend on when the caller looks
         if impl_obs is not None:
             s += " obs=" + impl_obs
         return s
@@ -92,7 +92,11 @@ class HealthFamily(Family):
                     ops.append("isready")
             ops.append("get")
             if rng.below(40) == 0:
-                ops.append("wait")
+                ops.append(rng.choice(["wait", "waitlate"]))
+            cs.append({"ops": ops})
+        a, b = hx("a"), hx("b")
+        for ops in (["add:" + a, "waitlate"], ["add:" + a, "add:" + b, "ready:" + a, "waitlate"], ["add:" + a, "ready:" + a, "waitlate"],
+                    ["add:" + a, "ready:" + a, "add:" + a, "waitlate", "get"], ["waitlate"], ["add:" + a, "wait", "ready:" + a, "wait"]):
             cs.append({"ops": ops})
         # snapshot clause: requests racing with registrations / ready-marks under the controlled scheduler
         cs += self.conc.health_cases(tier, rng)
